@@ -32,14 +32,48 @@ def run_check(prop, tier='quick', overrides=None, quiet=False, replay=None, writ
         mod.run(ctx, R)
         if ctx.sliced:
             R.note('rule-relevant slicing used for: ' + ', '.join(sorted(ctx.sliced)))
-        if tier == 'thorough' and hasattr(mod, 'thorough') and overrides is None:
-            mod.thorough(ctx, R)
+        if tier == 'thorough' and overrides is None and not replay:
+            thorough_extras(prop, mod, R)
     except AnalysisError as e:
         R.error(str(e))
     except Exception as e:      # a traceback must never look like a verdict
         tb = traceback.format_exc().strip().splitlines()
         R.error('internal error: %s: %s | %s' % (type(e).__name__, e, ' / '.join(tb[-6:])))
     return R.finish(), R
+
+
+def thorough_extras(prop, mod, R):
+    """(a) the quick configuration (K=2, depth 3) must give the same verdicts as the deeper one just run;
+    (b) checker self-test: every seeded change naming this property must be caught, every benign variant must stay silent"""
+    from .report import Report as _R
+    q = _R(prop, 'quick', quiet=True)
+    q.write = False
+    qctx = Ctx(Model(), K=2, depth=3, tier='quick')
+    mod.run(qctx, q)
+    deep = {k for k, o in R.obs.items() if not o.ok}
+    shallow = {k for k, o in q.obs.items() if not o.ok}
+    if deep != shallow:
+        R.error('quick (K=2, depth 3) and thorough (K=3, depth 4) disagree on: %s' % sorted(deep ^ shallow)[:5])
+    R.count('thorough_obligations_recheck', len(q.obs))
+    try:
+        from selftest.run import one
+        from selftest.mutants import MUTANTS, BENIGN
+    except Exception as e:       # pragma: no cover
+        R.error('self-test corpus cannot be loaded: %s' % e)
+        return
+    from concurrent.futures import ProcessPoolExecutor
+    work = [(m, prop, False) for m in MUTANTS if prop in m['props']]
+    work += [(m, prop, True) for m in BENIGN if m['props'] == 'ALL' or prop in m['props']]
+    with ProcessPoolExecutor(max_workers=int(os.environ.get('VERIF_JOBS', '16'))) as ex:
+        results = list(ex.map(one, work))
+    bad = [r for r in results if r[2] not in ('ok', 'skipped')]
+    skipped = [r for r in results if r[2] == 'skipped']
+    for mid, p_, status, detail in results:
+        R.canary(mid, status in ('ok', 'skipped'), '%s %s' % (status, detail[:120]))
+    R.count('selftest_variants', len(results))
+    R.count('selftest_skipped', len(skipped))
+    R.note('self-test: %d seeded changes / benign variants for %s, %d as expected, %d skipped (anchor vanished), %d wrong'
+           % (len(results), prop, len(results) - len(bad) - len(skipped), len(skipped), len(bad)))
 
 
 def main(argv):
